@@ -23,6 +23,11 @@ import (
 
 //-----------------------------------------------------------------------------
 
+// dxfLock serializes the writing of dxf files. The dxf package shares its default layer, style
+// and line type objects between all drawings: a drawing created while another one is still being
+// built changes what the first one writes. Each writer holds the lock from NewDXF to Save.
+var dxfLock sync.Mutex
+
 // DXF is a dxf drawing object.
 type DXF struct {
 	name    string
@@ -91,6 +96,8 @@ func (d *DXF) Save() error {
 
 // SaveDXF writes line segments to a DXF file.
 func SaveDXF(path string, mesh []*sdf.Line2) error {
+	dxfLock.Lock()
+	defer dxfLock.Unlock()
 	d := NewDXF(path)
 	d.drawing.ChangeLayer("Lines")
 	for i := range mesh {
@@ -110,6 +117,7 @@ func SaveDXF(path string, mesh []*sdf.Line2) error {
 // writeDXF writes a stream of line segments to a DXF file.
 func writeDXF(wg *sync.WaitGroup, path string) (chan<- []*sdf.Line2, error) {
 
+	dxfLock.Lock()
 	d := NewDXF(path)
 	d.drawing.ChangeLayer("Lines")
 
@@ -120,6 +128,7 @@ func writeDXF(wg *sync.WaitGroup, path string) (chan<- []*sdf.Line2, error) {
 	wg.Add(1)
 	go func() {
 		defer wg.Done()
+		defer dxfLock.Unlock()
 		for ls := range c {
 			for _, l := range ls {
 				p0 := l[0]
@@ -148,6 +157,8 @@ func Poly(p *sdf.Polygon, path string) error {
 	}
 
 	fmt.Printf("rendering %s\n", path)
+	dxfLock.Lock()
+	defer dxfLock.Unlock()
 	d := NewDXF(path)
 
 	for i := 0; i < len(vlist)-1; i++ {
